@@ -149,15 +149,15 @@ Section EW.
       pose proof (omap_ints st idx H _ _ Eo E0) as Hi'.
       destruct (Pos.eqb x0 w) eqn:Ex.
       + apply Pos.eqb_eq in Ex. subst x0. destruct (compose acc idx') as [c|] eqn:Ec; [|discriminate]. inversion Hw; subst.
-        destruct HI as (H1 & H2 & H3). unfold get_view in E. rewrite H1 in E. inversion E; subst.
+        destruct HI as (H1 & H2 & H3). unfold get_view in E. rewrite H1 in E. inversion E as [EW]. subst a.
         destruct (cell_read_sound st idx' c a0 a1 (conj H1 (conj H2 H3)) Ec Hi' E1) as (cis & Hcis & Hr).
         rewrite eval_Read. unfold get_view. rewrite H2. cbn [bind]. rewrite Hcis. cbn [bind]. rewrite Hr. reflexivity.
       + inversion Hw; subst. rewrite eval_Read, E. cbn [bind]. rewrite Hi'. cbn [bind]. rewrite E1. reflexivity.
     - destruct (ew_e w x acc e) as [a'|] eqn:Ea; [|discriminate]. inversion Hw; subst.
-      cbn [eval] in *. bind_inv He. rewrite (IHe _ _ eq_refl E). cbn [bind]. exact He.
+      cbn [eval] in *. bind_inv He. rewrite (IHe _ _ Ea E). cbn [bind]. exact He.
     - destruct (ew_e w x acc e1) as [a'|] eqn:Ea; [|discriminate]. destruct (ew_e w x acc e2) as [b'|] eqn:Eb; [|discriminate].
       inversion Hw; subst. cbn [eval] in *. bind_inv He. bind_inv He.
-      rewrite (IHe1 _ _ eq_refl E), (IHe2 _ _ eq_refl E0). cbn [bind]. exact He.
+      rewrite (IHe1 _ _ Ea E), (IHe2 _ _ Eb E0). cbn [bind]. exact He.
     - destruct (omap (ew_e w x acc) args) as [args'|] eqn:Eo; [|discriminate]. inversion Hw; subst.
       rewrite eval_Extern in *. bind_inv He. rewrite (omap_vals st args H _ _ Eo E). cbn [bind]. exact He.
     - cbn [eval] in He. discriminate He.
@@ -210,4 +210,131 @@ Section EW.
       inversion Hw; subst. cbn [eval_view] in *. bind_inv He. bind_inv He.
       rewrite E. cbn [bind]. rewrite (ew_waccs st _ _ _ HI Eo E0). cbn [bind]. exact He.
   Qed.
+
+  (** ** statements: same state on both sides *)
+  Definition str (s : stmt) : Prop :=
+    forall s' st st', ew_s w x acc s = Some s' -> Inv st -> exec s st = Ok st' -> exec s' st = Ok st'.
+
+  (** what a statement leaves in the environment keeps the invariant *)
+  Lemma exec_Inv : forall s s' st st', ew_s w x acc s = Some s' -> Inv st -> exec s st = Ok st' -> Inv st'.
+  Proof.
+    intros s s' st st' Hw HI He. destruct s; cbn [ew_s] in Hw.
+    - cbn [exec] in He. repeat bind_inv He. inversion He; subst. eapply Inv_env; [exact HI|reflexivity].
+    - cbn [exec] in He. repeat bind_inv He. inversion He; subst. eapply Inv_env; [exact HI|reflexivity].
+    - cbn [exec] in He. repeat bind_inv He. inversion He; subst. eapply Inv_env; [exact HI|reflexivity].
+    - cbn in He. inversion He; subst. exact HI.
+    - rewrite exec_If in He. bind_inv He. bind_inv He. unfold scoped in He. bind_inv He. inversion He; subst.
+      eapply Inv_env; [exact HI|reflexivity].
+    - rewrite exec_For in He. bind_inv He. bind_inv He. bind_inv He. bind_inv He. destruct (a2 <? a0); [discriminate|].
+      apply iter_loop_env in He. eapply Inv_env; [exact HI|exact He].
+    - destruct (ok_binder w x acc x0) eqn:Eb; [|discriminate].
+      cbn [exec] in He. bind_inv He. destruct (all_pos a); [|discriminate]. unfold alloc_block in He. inversion He; subst.
+      apply Inv_bind; [|exact Eb]. eapply Inv_env; [exact HI|reflexivity].
+    - discriminate.
+    - destruct (ok_binder w x acc x0) eqn:Eb; [|discriminate]. cbn [exec] in He. bind_inv He. inversion He; subst.
+      apply Inv_bind; assumption.
+  Qed.
+
+  Lemma omap_exec : forall l, Forall str l -> forall l' st st', omap (ew_s w x acc) l = Some l' -> Inv st ->
+    exec_list l st = Ok st' -> exec_list l' st = Ok st'.
+  Proof.
+    intros l H. induction H as [|s r Hs Hr IH]; intros l' st st' Ho HI He; cbn [omap] in Ho.
+    - inversion Ho; subst. exact He.
+    - destruct (ew_s w x acc s) as [s'|] eqn:Es; [|discriminate]. destruct (omap (ew_s w x acc) r) as [r'|] eqn:Er; [|discriminate].
+      inversion Ho; subst. cbn [exec_list] in *. bind_inv He. rewrite (Hs _ _ _ Es HI E). cbn [bind].
+      eapply IH; [reflexivity|eapply exec_Inv; eauto|exact He].
+  Qed.
+
+  Lemma iter_loop_same : forall f g, (forall k st st', Inv st -> f k st = Ok st' -> g k st = Ok st' /\ Inv st') ->
+    forall n k st st', Inv st -> iter_loop n k f st = Ok st' -> iter_loop n k g st = Ok st'.
+  Proof.
+    intros f g H. induction n as [|n IH]; intros k st st' HI He; cbn [iter_loop] in *; [exact He|].
+    bind_inv He. destruct (H _ _ _ HI E) as [Hg HI']. rewrite Hg. cbn [bind]. eapply IH; eauto.
+  Qed.
+
+  Theorem ew_s_sound : forall s, str s.
+  Proof.
+    induction s using stmt_ind2; unfold str; intros s' st st' Hw HI He; cbn [ew_s] in Hw.
+    - (* Assign *) destruct (omap (ew_e w x acc) idx) as [idx'|] eqn:Eo; [|discriminate].
+      destruct (ew_e w x acc rhs) as [rhs'|] eqn:Er; [|discriminate].
+      cbn [exec] in He. bind_inv He. bind_inv He. bind_inv He. bind_inv He. bind_inv He. inversion He; subst.
+      pose proof (ew_ints st idx idx' _ HI Eo E0) as Hi'. pose proof (ew_e_sound st rhs HI _ _ Er E1) as Hr'.
+      destruct (Pos.eqb x0 w) eqn:Ex.
+      + apply Pos.eqb_eq in Ex. subst x0. destruct (compose acc idx') as [c|] eqn:Ec; [|discriminate]. inversion Hw; subst.
+        pose proof HI as (H1 & H2 & H3). unfold get_view in E. rewrite H1 in E. inversion E as [EW]. subst a.
+        destruct (cell_write_sound st idx' c a0 a2 a3 HI Ec Hi' E3) as (cis & Hcis & Hwr).
+        cbn [exec]. unfold get_view. rewrite H2. cbn [bind]. rewrite Hcis. cbn [bind]. rewrite Hr'. cbn [bind].
+        rewrite E2. cbn [bind]. rewrite Hwr. reflexivity.
+      + inversion Hw; subst. cbn [exec]. rewrite E. cbn [bind]. rewrite Hi'. cbn [bind]. rewrite Hr'. cbn [bind].
+        rewrite E2. cbn [bind]. rewrite E3. reflexivity.
+    - (* Reduce *) destruct (omap (ew_e w x acc) idx) as [idx'|] eqn:Eo; [|discriminate].
+      destruct (ew_e w x acc rhs) as [rhs'|] eqn:Er; [|discriminate].
+      cbn [exec] in He. bind_inv He. bind_inv He. bind_inv He. bind_inv He. bind_inv He. bind_inv He. inversion He; subst.
+      pose proof (ew_ints st idx idx' _ HI Eo E0) as Hi'. pose proof (ew_e_sound st rhs HI _ _ Er E1) as Hr'.
+      destruct (Pos.eqb x0 w) eqn:Ex.
+      + apply Pos.eqb_eq in Ex. subst x0. destruct (compose acc idx') as [c|] eqn:Ec; [|discriminate]. inversion Hw; subst.
+        pose proof HI as (H1 & H2 & H3). unfold get_view in E. rewrite H1 in E. inversion E as [EW]. subst a.
+        destruct (cell_read_sound st idx' c a0 a3 HI Ec Hi' E3) as (cis & Hcis & Hrd).
+        destruct (cell_write_sound st idx' c a0 _ a4 HI Ec Hi' E4) as (cis' & Hcis' & Hwr).
+        rewrite Hcis in Hcis'. inversion Hcis'; subst cis'.
+        cbn [exec]. unfold get_view. rewrite H2. cbn [bind]. rewrite Hcis. cbn [bind]. rewrite Hr'. cbn [bind].
+        rewrite E2. cbn [bind]. rewrite Hrd. cbn [bind]. rewrite Hwr. reflexivity.
+      + inversion Hw; subst. cbn [exec]. rewrite E. cbn [bind]. rewrite Hi'. cbn [bind]. rewrite Hr'. cbn [bind].
+        rewrite E2. cbn [bind]. rewrite E3. cbn [bind]. rewrite E4. reflexivity.
+    - (* WriteCfg *) destruct (ew_e w x acc rhs) as [rhs'|] eqn:Er; [|discriminate]. inversion Hw; subst.
+      cbn [exec] in *. bind_inv He. rewrite (ew_e_sound st rhs HI _ _ Er E). cbn [bind]. exact He.
+    - (* Pass *) inversion Hw; subst. exact He.
+    - (* If *) destruct (ew_e w x acc c) as [c'|] eqn:Ec; [|discriminate].
+      destruct (omap (ew_s w x acc) a) as [a'|] eqn:Ea; [|discriminate].
+      destruct (omap (ew_s w x acc) b) as [b'|] eqn:Eb; [|discriminate]. inversion Hw; subst.
+      rewrite exec_If in *. bind_inv He. bind_inv He. rewrite (ew_e_sound st c HI _ _ Ec E). cbn [bind]. rewrite E0. cbn [bind].
+      unfold scoped in *. bind_inv He. destruct a1.
+      + rewrite (omap_exec a H _ _ _ Ea HI E1). cbn [bind]. exact He.
+      + rewrite (omap_exec b H0 _ _ _ Eb HI E1). cbn [bind]. exact He.
+    - (* For *) destruct (ok_binder w x acc i) eqn:Eb; [|discriminate].
+      destruct (ew_e w x acc lo) as [lo'|] eqn:El; [|discriminate]. destruct (ew_e w x acc hi) as [hi'|] eqn:Eh; [|discriminate].
+      destruct (omap (ew_s w x acc) a) as [a'|] eqn:Ea; [|discriminate]. inversion Hw; subst.
+      rewrite exec_For in *. bind_inv He. bind_inv He. bind_inv He. bind_inv He.
+      rewrite (ew_e_sound st lo HI _ _ El E). cbn [bind]. rewrite E0. cbn [bind].
+      rewrite (ew_e_sound st hi HI _ _ Eh E1). cbn [bind]. rewrite E2. cbn [bind].
+      destruct (a3 <? a1); [discriminate|].
+      eapply iter_loop_same; [|exact HI|exact He].
+      intros k s0 s0' HI0 Hb. unfold loop_body in *. bind_inv Hb. inversion Hb; subst.
+      rewrite (omap_exec a H _ _ _ Ea (Inv_bind _ _ _ HI0 Eb) E3). cbn [bind]. split; [reflexivity|].
+      eapply Inv_env; [exact HI0|reflexivity].
+    - (* Alloc *) destruct (ok_binder w x acc x0) eqn:Eb; [|discriminate].
+      destruct (omap (ew_e w x acc) shape) as [sh'|] eqn:Es; [|discriminate]. inversion Hw; subst.
+      cbn [exec] in *. bind_inv He. rewrite (ew_ints st shape sh' _ HI Es E). cbn [bind]. exact He.
+    - (* Call *) discriminate.
+    - (* WindowS *) destruct (ok_binder w x acc x0) eqn:Eb; [|discriminate].
+      destruct (ew_v w x acc rhs) as [rhs'|] eqn:Er; [|discriminate]. inversion Hw; subst.
+      cbn [exec] in *. bind_inv He. rewrite (ew_v_sound st rhs _ _ HI Er E). cbn [bind]. exact He.
+  Qed.
+
+  Theorem ew_ss_sound : forall l l' st st', omap (ew_s w x acc) l = Some l' -> Inv st ->
+    exec_list l st = Ok st' -> exec_list l' st = Ok st'.
+  Proof. intro l. apply omap_exec. apply Forall_forall. intros s _. apply ew_s_sound. Qed.
 End EW.
+
+(** ** the whole list *)
+Theorem elim_ws_sound : forall l st st', exec_list l st = Ok st' -> exec_list (elim_ws l) st = Ok st'.
+Proof.
+  induction l as [|s r IH]; intros st st' He; [exact He|]. cbn [exec_list] in He. bind_inv He.
+  pose proof (IH _ _ He) as Hr.
+  assert (Hdef : exec_list (s :: elim_ws r) st = Ok st') by (cbn [exec_list]; rewrite E; exact Hr).
+  cbn [elim_ws]. destruct s; try exact Hdef. destruct rhs; try exact Hdef.
+  destruct (forallb ctrl_w acc && negb (Pos.eqb x x0) && negb (mem x (flat_map fv_w acc))) eqn:Ec; [|exact Hdef].
+  destruct (omap (ew_s x x0 acc) (elim_ws r)) as [r''|] eqn:Eo; [|exact Hdef].
+  apply andb_true_iff in Ec as [Ec Hfv]. apply andb_true_iff in Ec as [Hctrl Hne].
+  apply negb_true_iff in Hne. apply negb_mem_notin in Hfv.
+  cbn [exec_list]. rewrite E. cbn [bind].
+  (* the state after the window statement satisfies the invariant *)
+  cbn [exec] in E. bind_inv E. inversion E; subst a. cbn [eval_view] in E0.
+  bind_inv E0. bind_inv E0. bind_inv E0. destruct a2 as [off dims]. inversion E0; subst a0.
+  unfold get_view in E1. destruct (lookup x0 (s_env st)) as [[v|X]|] eqn:EX; try discriminate. inversion E1; subst a.
+  eapply (ew_ss_sound x x0 acc (mkView (vloc X) off dims) X a1 Hctrl eq_refl); [exact E3|exact Eo| |exact Hr].
+  unfold Inv. cbn [bind_var s_env lookup]. rewrite Pos.eqb_refl. split; [reflexivity|].
+  rewrite (Pos.eqb_sym x0 x), Hne. split; [exact EX|].
+  rewrite <- E2. apply ctrl_waccs_agree; [exact Hctrl|]. intros y Hy. cbn [bind_var s_env lookup].
+  destruct (Pos.eqb y x) eqn:Ey; [|reflexivity]. apply Pos.eqb_eq in Ey. subst. contradiction.
+Qed.
